@@ -9,7 +9,8 @@ def hx(s):
 
 
 # includes names that differ only in case or by a trailing space: lookups must tell them apart
-VALID_NAMES = ["a", "b", "c", "d", "x y", "é", "Crate One", "zz", "A", "a ", "B"]
+# ... and names with SQL wildcards, a backslash, a trailing dot, and the two-character neighbours a wildcard would match
+VALID_NAMES = ["a", "b", "c", "d", "x y", "é", "Crate One", "zz", "A", "a ", "B", "a_", "ab", "a%", "%", "_", "back\\slash", "dot.", "100%"]
 INVALID_NAMES = ["", "a;b", ";", "tail;"]
 
 
